@@ -224,7 +224,7 @@ func judgeC16(c ReqCase) *Fail {
 }
 
 func genC16(t *rapid.T) ReqCase {
-	return mkReqCase(stepRequest(t, GenOpts{ValueMode: -1}, "preferenceReversal", 2))
+	return mkReqCase(stepRequest(t, GenOpts{ValueMode: -1, BigTiers: true}, "preferenceReversal", 2))
 }
 
 // double reversal of the same criteria restores the data
@@ -459,7 +459,7 @@ func judgeC17Agg(c AggCase) *Fail {
 }
 
 func genC17(t *rapid.T) ReqCase {
-	return mkReqCase(stepRequest(t, GenOpts{ValueMode: -1}, "fatigue", 2))
+	return mkReqCase(stepRequest(t, GenOpts{ValueMode: -1, BigTiers: true}, "fatigue", 2))
 }
 
 func init() {
